@@ -149,7 +149,14 @@ func (e *Env) resolveType(s string) types.Type {
 	panic(fmt.Sprintf("contract type %q: not found in %s", s, e.pkgPath))
 }
 
-func (x *Exec) evalBool(env *Env, e Expr) *Term {
+func (x *Exec) evalBool(env *Env, e Expr) (res *Term) {
+	if env.depth == 0 {
+		defer func() {
+			if r := recover(); r != nil {
+				panic(fmt.Sprintf("%v [while evaluating: %s]", r, exprText(e)))
+			}
+		}()
+	}
 	v, _ := x.eval(env, e)
 	t, ok := v.(*Term)
 	if !ok || t.Sort != SBool {
@@ -329,6 +336,15 @@ func (x *Exec) eval(env *Env, e Expr) (Value, types.Type) {
 		}
 		// facts assumed while evaluating the body (type facts of loads) must not leak bound variables into the path condition
 		saved := env.st.pc
+		var pats []*Term
+		for _, pe := range e.Pats {
+			pv, _ := x.eval(ch, pe)
+			for _, t := range flatten(x.asPlainPure(pv)) {
+				if !t.Lit && !t.Var {
+					pats = append(pats, t)
+				}
+			}
+		}
 		body := x.evalBool(ch, e.Body)
 		extra := env.st.pc[len(saved):]
 		env.st.pc = saved
@@ -345,7 +361,7 @@ func (x *Exec) eval(env *Env, e Expr) (Value, types.Type) {
 			x.assumeIn(env.st, f)
 		}
 		if e.Forall {
-			return mkForall(bound, mkImplies(mkAnd(guards...), body)), types.Typ[types.Bool]
+			return mkForall(bound, mkImplies(mkAnd(guards...), body), pats...), types.Typ[types.Bool]
 		}
 		return mkExists(bound, mkAnd(append(guards, body)...)), types.Typ[types.Bool]
 	case *EAssert:
@@ -641,6 +657,10 @@ func (x *Exec) evalCall(env *Env, e *ECall) (Value, types.Type) {
 		ph := env.mem.getHeap(name, arrSort(SInt, arrSort(mapKeySort(mt), SBool)))
 		ref := mv.(*Term)
 		return mkAnd(mkNe(ref, mkInt(0)), mkSelect(mkSelect(ph, ref), x.keyTerm(env.st, mt, kv))), boolT
+	case "runeAt": // runeAt(s, i): the i-th rune of string s
+		sv, _ := x.eval(env, e.Args[0])
+		iv, _ := x.eval(env, e.Args[1])
+		return ufApp(ufSRune, sv.(*Term), iv.(*Term)), types.Typ[types.Int32]
 	case "was": // was(g, x): the ghost g of the node x denotes NOW, looked up in the old() state
 		gname := e.Args[0].(*EIdent).Name
 		g := x.sp.Ghosts[gname]
@@ -744,9 +764,7 @@ func (x *Exec) evalPredLike(env *Env, e *ECall, params []Param, body Expr, pkgPa
 		}
 		inner.bind(p.Name, v, pt)
 		if inner.oldVars != nil {
-			ov, _ := x.eval(env.atOld(), e.Args[i])
-			// arguments are values: old(pred(a)) evaluates a in the old state as well; inside the body old() keeps these
-			_ = ov
+			// arguments are values: inside the body old() keeps them
 			inner.oldVars[p.Name] = v
 		}
 	}
@@ -837,4 +855,35 @@ func sortStrings(s []string) {
 			}
 		}
 	}
+}
+
+// exprText renders a contract expression roughly (for error messages).
+func exprText(e Expr) string {
+	switch e := e.(type) {
+	case *EIdent:
+		return e.Name
+	case *EInt:
+		return e.V
+	case *ESel:
+		return exprText(e.X) + "." + e.Name
+	case *EIndex:
+		return exprText(e.X) + "[" + exprText(e.I) + "]"
+	case *ECall:
+		var as []string
+		for _, a := range e.Args {
+			as = append(as, exprText(a))
+		}
+		return e.Fn + "(" + strings.Join(as, ", ") + ")"
+	case *EBinary:
+		return "(" + exprText(e.X) + " " + e.Op + " " + exprText(e.Y) + ")"
+	case *EUnary:
+		return e.Op + exprText(e.X)
+	case *EOld:
+		return "old(" + exprText(e.X) + ")"
+	case *EQuant:
+		return "forall/exists ... :: " + exprText(e.Body)
+	case *ECond:
+		return exprText(e.C) + " ? " + exprText(e.A) + " : " + exprText(e.B)
+	}
+	return fmt.Sprintf("%T", e)
 }
